@@ -328,22 +328,26 @@ static uint32_t count_frames_in_next_tu(const EncodeContext *encode_context_ptr,
     return i;
 }
 
-static int pts_descend(const void *pa, const void*pb) {
-    EbObjectWrapper* a = *(EbObjectWrapper**)pa;
-    EbObjectWrapper* b = *(EbObjectWrapper**)pb;
-    EbBufferHeaderType *ba = (EbBufferHeaderType *)(a->object_ptr);
-    EbBufferHeaderType *bb = (EbBufferHeaderType *)(b->object_ptr);
-    return (bb->pts > ba->pts) - (bb->pts < ba->pts);
-}
-
-static void push_undisplayed_frame(EncodeContext *encode_context_ptr, EbObjectWrapper *wrapper) {
+// The queue is kept in descending display order (picture number), so that the frame popped for a show-existing
+// packet is the next one to be displayed whatever pts values the application attached to its pictures.
+static void push_undisplayed_frame(EncodeContext *encode_context_ptr, EbObjectWrapper *wrapper,
+                                   uint64_t picture_number) {
     if (encode_context_ptr->picture_decision_undisplayed_queue_count >= REF_FRAMES) {
         SVT_ERROR("bug, too many frames in undisplayed queue");
         return;
     }
-    uint32_t count = encode_context_ptr->picture_decision_undisplayed_queue_count;
-    encode_context_ptr->picture_decision_undisplayed_queue[count++] = wrapper;
-    encode_context_ptr->picture_decision_undisplayed_queue_count = count;
+    uint32_t pos = encode_context_ptr->picture_decision_undisplayed_queue_count;
+    while (pos > 0 &&
+           encode_context_ptr->picture_decision_undisplayed_queue_pic_num[pos - 1] < picture_number) {
+        encode_context_ptr->picture_decision_undisplayed_queue[pos] =
+            encode_context_ptr->picture_decision_undisplayed_queue[pos - 1];
+        encode_context_ptr->picture_decision_undisplayed_queue_pic_num[pos] =
+            encode_context_ptr->picture_decision_undisplayed_queue_pic_num[pos - 1];
+        pos--;
+    }
+    encode_context_ptr->picture_decision_undisplayed_queue[pos]         = wrapper;
+    encode_context_ptr->picture_decision_undisplayed_queue_pic_num[pos] = picture_number;
+    encode_context_ptr->picture_decision_undisplayed_queue_count++;
 }
 
 static EbObjectWrapper *pop_undisplayed_frame(EncodeContext *encode_context_ptr) {
@@ -356,13 +360,6 @@ static EbObjectWrapper *pop_undisplayed_frame(EncodeContext *encode_context_ptr)
     EbObjectWrapper *ret = encode_context_ptr->picture_decision_undisplayed_queue[count];
     encode_context_ptr->picture_decision_undisplayed_queue_count = count;
     return ret;
-}
-
-static void sort_undisplayed_frame(EncodeContext* encode_context_ptr) {
-    qsort(&encode_context_ptr->picture_decision_undisplayed_queue[0],
-          encode_context_ptr->picture_decision_undisplayed_queue_count,
-          sizeof(EbObjectWrapper *),
-          pts_descend);
 }
 
 #if DETAILED_FRAME_OUTPUT
@@ -537,10 +534,8 @@ static EbErrorType encode_tu(EncodeContext *encode_context_ptr, int frames, uint
         //1. The last frame is a displayable frame, others are undisplayed.
         //2. We do not push alt ref frame since the overlay frame will carry the pts.
         if (i != frames - 1 && !queue_entry_ptr->is_alt_ref)
-            push_undisplayed_frame(encode_context_ptr, wrapper);
+            push_undisplayed_frame(encode_context_ptr, wrapper, queue_entry_ptr->poc);
     }
-    if (frames > 1)
-        sort_undisplayed_frame(encode_context_ptr);
     dst -= TD_SIZE;
     encode_td_av1(dst);
     output_stream_ptr->n_filled_len = total_bytes;
